@@ -57,7 +57,14 @@ RULE = (
     "that the call raises part-way, callbacks returning float32 / complex / longdouble / int / changing kinds} and "
     "two-step histories for every class (object built twice from the caller's arrays, infinite-radius local grid, every "
     "setter twice, the mutating methods in between); in the quick tier the patterns other than rw / ro / cb-identity / "
-    "cb-cached run on every other entry, alternating with the seed (all of them in the thorough tier)"
+    "cb-cached run on every other entry, alternating with the seed (all of them in the thorough tier); round 5 adds "
+    "{callbacks returning a row of a caller table; the argument arrays edited in place between two calls with the second "
+    "answer compared with the one on fresh arguments; longdouble / float16 / integer arguments given directly} and "
+    "degenerate value patterns for every entry point with callbacks (all lower coefficients zero as numbers / callables, "
+    "leading coefficient != 1, zero right-hand side, zero densities), argument arrays past block boundaries (1025 ... "
+    "2^19+1) with split-additivity references, descending / shuffled inputs, explicit parameters beyond the data, two "
+    "instances sharing caller arrays; the search after a broken tie is staged (flagged entry points first, CPU budget per "
+    "stage, later stages dropped once a concrete input exists)"
 )
 TRUSTED_BASE = [
     "Lean 4.33 kernel; axioms propext, Classical.choice, Quot.sound only (audited per theorem)",
